@@ -16,6 +16,7 @@ func NewCallGraph() CallGraph {
 }
 
 func (c CallGraph) Analysis(funcName string, clzs []core_domain.CodeDataStruct, lookup bool) string {
+	loopCount = 0
 	methodMap := BuildMethodMap(clzs)
 	chain := BuildCallChain(funcName, methodMap, nil)
 
